@@ -94,6 +94,19 @@ def _startup(ctx, master, rule='C09.1'):
                    [K.show_table(t) for t in tabs] if tabs else
                    'not a recognised set expression'),
                construct='start-up delete domain')
+    # the model the stored records are compared with is the model after the
+    # start-up cycle: what that cycle moves or un-places must lose its old
+    # record in the delete pass (the create pass only adds)
+    cycles = [n for n, c in K.nodes_calling(
+        graph, lambda c: K.is_meth(c, 'schedule') and
+        (K.recv_text(c) or '').endswith('cell'))]
+    for node, _rec in dels:
+        ctx.ob(rule, func, node,
+               bool(cycles) and K.guarded_by(
+                   graph, node, lambda e: e.src in cycles and
+                   e.kind != 'exc'),
+               'the start-up delete pass runs after the start-up cycle',
+               construct='start-up cycle before the delete pass')
     # where the "model" side of the difference is taken to be empty, the
     # server is not a member of the cell (for a member an empty stand-in
     # deletes every record it has, and the create pass, which trusts the
@@ -168,10 +181,6 @@ def _startup(ctx, master, rule='C09.1'):
             return 'backend.list(' in N.txt(expr) and \
                 'PLACEMENT' in N.txt(expr)
 
-        def is_members(expr):
-            return N.txt(expr) in ('servers', 'self.cell.members()',
-                                   'self.servers') or \
-                (isinstance(expr, ast.Name) and False)
         sy = K.FlowSetExpr(func, graph, {'root': is_root,
                                          'members': _is_members(func)})
         dom = outer.ast.iter
@@ -195,8 +204,10 @@ def _is_members(func):
 
     def recog(expr):
         txt = N.txt(expr)
-        if txt in ('self.cell.members()', 'self.servers',
-                   'self.cell.members().items()'):
+        # the servers the scheduler places on: the members of the cell
+        # tree (Loader.servers may still hold a server whose bucket left
+        # the cell, with the instances it had)
+        if txt in ('self.cell.members()', 'self.cell.members().items()'):
             return True
         if isinstance(expr, ast.Name) and expr.id in defs and all(
                 N.txt(v) == 'self.cell.members()' for v in defs[expr.id]):
@@ -793,6 +804,10 @@ def _identity_with_placement(ctx):
                'a victim recorded for restore keeps its identity (it may '
                'return to the same server with the same expiry, which '
                'publishes nothing)', construct='victim identity kept')
+    # ... and a new identity is taken only where a placement with a fresh
+    # expiry follows (the placement loop)
+    from .sched_model import acquire_owner
+    acquire_owner(ctx, 'C09.2')
 
 
 def check(ctx):
@@ -807,6 +822,12 @@ def check(ctx):
     _unsnapshotted(ctx, master)
     _reload(ctx)
     _removal(ctx, master)
+    # shared with C01.8: a server object leaves the model only after its
+    # placements were withdrawn - an instance that still names the server
+    # stays "placed" in the model while restore_placement drops its record
+    from . import c01
+    with ctx.shared({'C01': 'C09.4'}):
+        c01._model_exit(ctx)
 
 
 _M = 'lib/python/treadmill/scheduler/master.py'
